@@ -370,7 +370,7 @@ def _branch_label(fn, i):
     return "always"
 
 
-@rule("C19.idents-consumers", min_instances=5, props=["C04"])
+@rule("C19.idents-consumers", min_instances=5, props=["C04", "C05"])
 def idents_consumers(ctx):
     """every parse-tree node class that parses a sub-expression subtracts the names the expression binds itself from the names it demands"""
     db = ctx.db
@@ -392,6 +392,15 @@ def idents_consumers(ctx):
             if c.name == "Code":
                 ctx.ok("consumer:%s.%s" % (c.name, a), db.where(und[0]), "block assignments are scope-level declarations (handled by _Identifiers)")
                 continue
+            # ... and nothing else: the parameters of the body handed to the callee (args="...") are bound inside that body, the call
+            # expression itself is evaluated outside of it
+            sub_ = [d_.args[0] for d_ in ast.walk(und[0]) if isinstance(d_, ast.Call) and isinstance(d_.func, ast.Attribute) and d_.func.attr in ("difference", "difference_update") and d_.args
+                    and ("self.%s.undeclared_identifiers" % a) in src(d_.func.value)]
+            wide = [x_ for x_ in sub_ if "body_decl" in src(resolve_deep(und[0], x_, 3)) or "allargnames" in src(resolve_deep(und[0], x_, 3)) or "self.declared_identifiers()" in src(resolve_deep(und[0], x_, 3))]
+            if sub_:
+                ctx.check(not wide, "consumer:%s.%s:own-bindings-only" % (c.name, a), db.where(und[0]),
+                          "%s.undeclared_identifiers subtracts `%s` from the names the call expression reads: that includes the parameters of the body passed to the callee, so a context variable of the same name used in the call's own ${} attributes is no longer fetched (NameError at render time)" % (c.name, " ".join(src(wide[0]).split())[:70] if wide else ""),
+                          "only the expression's own bindings are subtracted")
             ctx.check(ok, "consumer:%s.%s" % (c.name, a), db.where(und[0]), "%s.undeclared_identifiers demands every name %s reads, including those the expression binds itself (comprehension variables): spurious context look-ups / NameError under strict_undefined" % (c.name, a), "subtracts the expression's own bindings")
     dt = db.func("parsetree.DefTag.undeclared_identifiers")
     ctx.check("difference(self.function_decl.allargnames)" in src(dt), "consumer:DefTag.args", db.where(dt), "a def's own parameters are demanded from the context", "parameters subtracted")
